@@ -72,19 +72,28 @@ def build_group_c(g, L0, allc, scratch, vacuity=False):
     L.fdiv_macro = bool(g.get('uf_fdiv'))
     L.request(g['roots'], g.get('stubs', []))
     tab = L.function_table()
-    enforce = g.get('enforce')
-    replace = list(g.get('replace', []))
+    def split(spec):
+        return tuple(spec.split('/', 1)) if '/' in spec else (spec, spec)
+    enforce_fn, enforce_ct = split(g['enforce']) if g.get('enforce') else (None, None)
+    replace_pairs = [split(r) for r in g.get('replace', [])]
+    enforce = enforce_fn
+    replace = [f for f, _ in replace_pairs]
+    ct_of = {f: c for f, c in replace_pairs}
+    if enforce_fn:
+        ct_of[enforce_fn] = enforce_ct
     loops_for = set(g.get('loop_contracts_for', [enforce] if enforce else []))
-    for f in [enforce] + replace if enforce else replace:
+    for f in ([enforce] + replace if enforce else replace):
         if f not in tab:
             raise Undecided('extraction break: function %s is not in the lowered unit (renamed or removed?)' % f)
-        if f not in allc:
-            raise Undecided('no contract for %s' % f)
+        if ct_of[f] not in allc:
+            raise Undecided('no contract %s for %s' % (ct_of[f], f))
+        if allc[ct_of[f]].target != f:
+            raise Undecided('contract %s is not for %s' % (ct_of[f], f))
     for f in loops_for:
-        if f in allc and f in tab:
-            c = allc[f]
+        cn = ct_of.get(f, f)
+        if cn in allc and f in tab:
+            c = allc[cn]
             want = set(c.loops) | set(n for (n, _) in c.ghost_loop)
-            # every loop named in the contract must exist; loops without entry are unwound
             if want and max(want) >= tab[f]['loops']:
                 raise Undecided('extraction break: contract of %s names loop %d, lowered function has %d loops'
                                 % (f, max(want), tab[f]['loops']))
@@ -94,7 +103,8 @@ def build_group_c(g, L0, allc, scratch, vacuity=False):
                                 % (f, tab[f]['loops'], nl))
 
     def sp(flat, sig, body):
-        c = allc.get(flat)
+        cn = ct_of.get(flat, flat)
+        c = allc.get(cn)
         with_fn = flat == enforce or flat in replace
         with_loops = flat in loops_for
         if flat in replace and flat != enforce and not g.get('keep_replaced_bodies'):
@@ -106,9 +116,19 @@ def build_group_c(g, L0, allc, scratch, vacuity=False):
         extra = ()
         if vacuity and flat == enforce:
             extra = ('0 /*VF_VACUITY*/',)
+        if cn != flat and with_fn:
+            # named contract variant: a declaration of the variant carries the clauses
+            vsig = re.sub(r'\b%s\(' % re.escape(flat), cn + '(', sig, count=1)
+            decl = ct.splice(cn, vsig, None, c, True, False, 0, extra)
+            fn = ct.splice(flat, sig, body, c, False, with_loops, tab[flat]['loops']) if body is not None else sig + ';'
+            if c.ghost_entry and body is not None and not with_loops:
+                fn = fn.replace('/*@ENTRY %s@*/' % flat, ' '.join(c.ghost_entry), 1)
+            return decl + '\n' + fn
         return ct.splice(flat, sig, body, c, with_fn, with_loops, tab[flat]['loops'], extra)
 
-    g['_has_loop_contracts'] = any(f in allc and f in tab and (allc[f].loops) for f in loops_for)
+    g['_has_loop_contracts'] = any(ct_of.get(f, f) in allc and f in tab and (allc[ct_of.get(f, f)].loops) for f in loops_for)
+    g['_enforce_fn'] = enforce_fn
+    g['_enforce_ct'] = enforce_ct
     part1, part2 = L.emit(cxx2c.HEADER, splice=sp, split=True)
     cfile = os.path.join(scratch, g['name'] + ('.vac' if vacuity else '') + '.c')
     inc = ''.join('#include "%s"\n' % os.path.join(VERIF, h) for h in g.get('spec_headers', []))
@@ -213,7 +233,7 @@ def cbmc_group(g, cfile, scratch, tag, props=None, trace=True):
         raise Undecided('goto-cc failed for %s:\n%s' % (g['name'], (out + err)[-3000:]))
     cmd = ['goto-instrument', '--dfcc', entry]
     if g.get('enforce'):
-        cmd += ['--enforce-contract', g['enforce']]
+        cmd += ['--enforce-contract', g['enforce']]   # 'f' or 'f/contract_variant'
     for r in list(g.get('replace', [])) + list(g.get('replace_extern', [])):
         cmd += ['--replace-call-with-contract', r]
     if g.get('apply_loop_contracts', g.get('_has_loop_contracts', False)):
@@ -226,8 +246,11 @@ def cbmc_group(g, cfile, scratch, tag, props=None, trace=True):
     instr_log = out + err
     cb = ['cbmc', base + '.b.gb', '--object-bits', str(g.get('object_bits', 12)), '--no-malloc-may-fail'] + [
         c for c in CBMC_CHECKS if c not in g.get('drop_checks', [])]
+    STANDARD = ('--bounds-check', '--pointer-check', '--div-by-zero-check', '--signed-overflow-check',
+                '--undefined-shift-check', '--pointer-primitive-check')
     for c in g.get('drop_checks', []):
-        cb.append('--no-' + c[2:])   # cbmc 6 turns the standard checks on by default
+        if c in STANDARD:
+            cb.append('--no-' + c[2:])   # cbmc 6 turns the standard checks on by default
     cb += g.get('extra_checks', [])
     if g.get('leak_check'):
         cb += ['--memory-leak-check']
@@ -302,9 +325,12 @@ def native_replay(g, L, allc, inputs_path, scratch, pid):
     with open(os.path.join(nd, 'adapters.hpp'), 'w') as f:
         f.write(L.emit_adapters())
     with open(os.path.join(nd, 'contract_macros.h'), 'w') as f:
-        for flat in [g.get('enforce')] + list(g.get('replace', [])):
-            if flat and flat in allc:
-                f.write(ct.native_macros(allc[flat], None) + '\n')
+        for spec in [g.get('enforce')] + list(g.get('replace', [])):
+            if not spec:
+                continue
+            fn, cn = (spec.split('/', 1) + [spec])[:2] if '/' in spec else (spec, spec)
+            if cn in allc:
+                f.write(ct.native_macros(allc[cn], None, fn) + '\n')
     with open(drv, 'w') as f:
         for k, v in g.get('defines', {}).items():
             f.write('#define %s %s\n' % (k, v))
@@ -377,9 +403,10 @@ def process_group(args):
             res['undecided'] = '%s: zero obligations generated (vacuous)' % g['name']
             return res
         # loop-contract vacuity: every loop with an invariant must have produced step obligations
-        enforce = g.get('enforce')
-        if enforce and enforce in allc and g.get('apply_loop_contracts', g.get('_has_loop_contracts', False)):
-            nl = sum(1 for n, Lp in allc[enforce].loops.items() if Lp['invariant'])
+        enforce = g.get('_enforce_fn')
+        ectr = g.get('_enforce_ct')
+        if enforce and ectr in allc and g.get('apply_loop_contracts', g.get('_has_loop_contracts', False)):
+            nl = sum(1 for n, Lp in allc[ectr].loops.items() if Lp['invariant'])
             if enforce in g.get('loop_contracts_for', [enforce]) and nl:
                 steps = sum(1 for x in results if re.search(r'loop_invariant_step', x['property']))
                 if steps < nl:
@@ -389,8 +416,11 @@ def process_group(args):
         # vacuity of the enforced contract: ensures(false) must FAIL
         if enforce and not failed and not g.get('skip_vacuity'):
             cf2, _, _ = build_group_c(g, L0, allc, scratch, vacuity=True)
-            npost = len(allc[enforce].ensures) + 1
+            npost = len(allc[ectr].ensures) + 1
             rv = cbmc_group(g, cf2, scratch, '.vac', trace=False, props=['%s.postcondition.%d' % (enforce, npost)])
+            if rv['status'] == 'error':
+                # property naming differs (e.g. named contract variants): run without the filter
+                rv = cbmc_group(g, cf2, scratch, '.vac', trace=False)
             if rv['status'] in ('timeout', 'error'):
                 res['undecided'] = '%s: vacuity run %s' % (g['name'], rv['status'])
                 return res
